@@ -45,3 +45,31 @@ contract(M + ":Time.update", "C14", model="R", params={"other": "Time"},
          requires=[], modifies=["self._quotient", "self._remainder"],
          ensures=["self._quotient == old(other._quotient)", "self._remainder == old(other._remainder)"],
          canary="self._quotient == 0")
+
+# ---- bit-precise clauses (model F, IEEE binary64): normal form, one rounding independent of the quotient
+FIN_F = "is_int(self._quotient) and 0 <= self._quotient <= 2**52 and 0 <= self._remainder < 1"
+contract(M + ":Time.__add__", "C14", tag="F", model="F", params={"other": "float"}, returns="Time",
+         requires=[FIN_F, "0 <= other <= 2**40"], lemmas_used=["divmod1"],
+         ensures=["is_int(result._quotient)",
+                  "0 <= result._remainder < 1",
+                  # s = RN(remainder + other) is the ONLY rounding: the split of s and the quotient update are exact
+                  "exact_sub(rn_add(self._remainder, other), floor(rn_add(self._remainder, other)))",
+                  "result._remainder == rn_sub(rn_add(self._remainder, other), floor(rn_add(self._remainder, other)))",
+                  "exact_add(self._quotient, floor(rn_add(self._remainder, other)))",
+                  "result._quotient == rn_add(self._quotient, floor(rn_add(self._remainder, other)))",
+                  "not lex_lt(result, self)"],
+         canary="result._remainder < 0.5",
+         trusted=["cpython_float_divmod: float_divmod(x, 1.0) encoded from Objects/floatobject.c with fmod(x,1.0) = x - trunc(x) (exact)"],
+         note="val(result) = quotient + RN(remainder + other) exactly: one rounding, whatever the quotient")
+contract(M + ":Time.__add__", "C14", tag="Finf", model="F", params={"other": "float"}, returns="Time",
+         requires=[FIN_F, "isinf(other) and other > 0"],
+         ensures=["isinf(result._quotient) and result._quotient > 0", "isinf(result._remainder) and result._remainder > 0"],
+         canary="result._quotient < 0", note="infinity is absorbing")
+contract(M + ":Time.from_float", "C14", tag="F", model="F", params={"time": "float"}, returns="Time",
+         requires=["0 <= time <= 2**53"], lemmas_used=["divmod1"],
+         ensures=["is_int(result._quotient)", "0 <= result._remainder < 1",
+                  "exact_add(result._quotient, result._remainder)",
+                  "add_rtn(result._quotient, result._remainder) == time"],
+         canary="result._remainder == 0",
+         trusted=["cpython_float_divmod: float_divmod(x, 1.0) encoded from Objects/floatobject.c with fmod(x,1.0) = x - trunc(x) (exact)"],
+         note="conversion from a non-negative float is exact")
